@@ -4,17 +4,18 @@ CONSTANTS
   Vals = {"x", "y"}
   EqVals = {"", "x", "y", "z"}
   ReSyms = {".*", ".+", "", "<x>", "<z>", "<x>|<y>", "<x>|<z>", "|<y>", "(?:<x>)?", "(?:<x>|<y>)?", "<x>.*", ".*<y>", ".*<x>.*", "(?i)<x>", "<x>.+", "(?:<y>|<z>).*"}
-  PairEqVals = {"", "x", "z"}
-  PairReSyms = {".*", ".+", "", "<x>", "<x>|<y>", "|<y>", "(?:<x>)?", "<x>.*"}
+  PairEqVals = {"", "x"}
+  PairReSyms = {".+", "", "<x>|<y>", "(?:<x>)?"}
   MaxMs = 2
   InitFamilies = {"empty"}
   Patterns = {}
-  AllowedPlaces = {{1}, {5}, {1, 5}, {3}}
+  AllowedPlaces = {{1}, {5}, {1, 5}}
   MaxSeries = 3
   MaxOps = 7
   RangeSeq <- R6
   LimitSeq <- L4
   ShardCounts = {}
+  EmptyName = TRUE
   Mode = "mc"
   EmitMode = "none"
 VIEW View
